@@ -10,9 +10,13 @@ from vcommon import MachineryError
 import synth
 
 
+KNOWN = [()]
+
+
 def export_registry(ctx):
     from nanite import preproc
     steps = [p.identifier for p in preproc.PREPROCESSORS]
+    KNOWN[0] = tuple(steps)
     reg = {"steps": steps,
            "req": {p.identifier: list(p.steps_required or [])
                    for p in preproc.PREPROCESSORS},
@@ -28,7 +32,7 @@ def observe(inp, kind, curve_factory):
     from nanite import preproc
     rec = {"inp": list(inp), "kind": kind, "sort_ok": False, "sort_out": [],
            "again_ok": False, "again_out": [], "check": False,
-           "apply": False, "exc": {}}
+           "apply": False, "apply_hist": False, "exc": {}}
     arg = list(inp)
     try:
         out = preproc.autosort(arg)
@@ -55,6 +59,20 @@ def observe(inp, kind, curve_factory):
         rec["apply"] = True
     except (ValueError, KeyError) as exc:
         rec["exc"]["apply"] = type(exc).__name__
+    # through the curve object, after a valid arrangement of the same steps
+    # (known identifiers only) has been applied to it
+    try:
+        idnt = curve_factory()
+        known = [s for s in inp if s in KNOWN[0]]
+        try:
+            first = preproc.autosort(list(known))
+            idnt.apply_preprocessing(list(first), {})
+        except (ValueError, KeyError):
+            pass
+        idnt.apply_preprocessing(list(inp), {})
+        rec["apply_hist"] = True
+    except (ValueError, KeyError) as exc:
+        rec["exc"]["apply_hist"] = type(exc).__name__
     return rec
 
 
